@@ -787,7 +787,24 @@ contract('StochasticGame.solve@typed', function='StochasticGame.solve', start_af
                   f"forall(t, 0, len({SV}), result[2][t] == ER[{SV}[t]] and ER[{SV}[t]] >= 0)",
                   sv(residW("10**(-6)")),
                   f"forall(a, 0, len({SV}), {sv(rew_clause('result[0]', 'a'))})",
-                  "not (self.prune_states and RP[state_list[0]] == 0)"],
+                  "not (self.prune_states and RP[state_list[0]] == 0)",
+                  # C05 inclusion: at every Player 1 state the final strategy is a subset of the reachability strategy
+                  f"forall(a, 0, len({SV}), implies(cls({SV}[a]) == 1, forall(q, 0, len(some(result[0][a])), some(result[0][a])[q] in some(result[1][a]))))"],
+         before_return=dict(
+             hints=[  # 0, 1: the node lists at exit (as in the postcondition), 2: the final strategy table
+                    f"implies(self.prune_states, forall(a, 0, len({SV}), {cond_state('a', 'reachability_strategies')} or (cls({SV}[a]) != 1 and len({SV}[a].next_states) == 0 and not F0[a])))",
+                    f"implies(not self.prune_states, forall(a, 0, len({SV}), {restricted_state('a', 'reachability_strategies')}))",
+                    f"forall(a, 0, len({SV}), {sv(rew_clause('final_strategies', 'a'))})",
+                    # 3: labels of the final strategy are labels of the node list at exit
+                    f"forall(a, 0, len({SV}), implies(cls({SV}[a]) == 1, forall(q, 0, len(some(final_strategies[a])), exists(k, 0, len({SV}[a].next_states), lab(lcontent({SV}[a].next_states)[k]) == some(final_strategies[a])[q]))))",
+                    # 4: every transition of a Player 1 node list at exit carries a label of the reachability strategy
+                    f"forall(a, 0, len({SV}), implies(cls({SV}[a]) == 1, forall(k, 0, len({SV}[a].next_states), lab(lcontent({SV}[a].next_states)[k]) in some(reachability_strategies[a]))))",
+                    # 5: hence the inclusion
+                    f"forall(a, 0, len({SV}), implies(cls({SV}[a]) == 1, forall(q, 0, len(some(final_strategies[a])), some(final_strategies[a])[q] in some(reachability_strategies[a]))))"],
+             use={3: [f"forall(a, 0, len({SV}), L_ArgEqR_from(lcontent({SV}[a].next_states), {SV}, ER, len({SV}[a].next_states), MaxR(lcontent({SV}[a].next_states), {SV}, ER, len({SV}[a].next_states))))"],
+                  4: [f"forall(a, 0, len({SV}), L_FL_from({OLDC('a')}, some(reachability_strategies[a]), len({OLDC('a')})))",
+                      f"forall(a, 0, len({SV}), L_FA_from(FilterLab({OLDC('a')}, some(reachability_strategies[a]), len({OLDC('a')})), {SV}, RP, len(FilterLab({OLDC('a')}, some(reachability_strategies[a]), len({OLDC('a')})))))"]},
+             isolate={3: [2], 4: [0, 1], 5: [3, 4]}),
          raises=dict(exc=['ValueError'], when=[], ensures=SOLVE_REACH_POST + ["self.prune_states", f"RP[{SV}[0]] == 0"]),
          modifies=dict([(f, [f"exists(p, 0, len({SV}), {SV}[p] == _o)"]) for f in ('next_states', 'reach_probability', 'expected_rewards', 'expected_rewards_min_reach', 'expected_reach_min_rewards')]
                        + [(f, ["_o >= alloc_o()"]) for f in ('state_list', 'threshold', 'floor')] + [('__lists__', [])]),
